@@ -6,7 +6,7 @@
 //! `Interpreter<MemoryInstance, MemoryStorage, Script>` and every step does
 //! `Transactor::from(vm.clone())` → call → `Interpreter::from(transactor)`.
 //!
-//! Space: all action sequences of length <= depth (5 quick, 7 thorough) over a fixed
+//! Space: all action sequences of length <= depth (7 quick, 12 thorough) over a fixed
 //! pool of CHECKED transactions, built once, simplest first:
 //!   Create c1, c1' (another transaction producing the same contract id), c2 (two
 //!   storage slots); Blob b1, b1' (same id, other transaction), b2;
@@ -17,8 +17,10 @@
 //!   AdoptCp / AdoptSt: the node moves its current consensus-parameter /
 //!   state-transition version to the latest installed one (environment action on
 //!   `MemoryStorage::set_*_version`); its absence on a path is the stale-version race.
-//! States are merged on (observed tables, current versions, hash of the whole
-//! interpreter's Debug rendering) — nothing a future depends on is dropped.
+//! States are merged on (observed tables, current versions, hash of the Debug
+//! rendering of the whole `MemoryStorage`). The four entry points read nothing else
+//! that varies (interpreter parameters and gas price are constant), so nothing a
+//! future depends on is dropped.
 //!
 //! Oracle (plain BTreeMaps, written from the property statement):
 //!   * create / blob: Ok iff the id is absent; then id -> exact code (+ slots) / data;
@@ -38,6 +40,7 @@ use fuel_asm::{
 };
 use fuel_tx::{
     Blob,
+    BlobIdExt,
     ConsensusParameters,
     Contract,
     Create,
@@ -520,7 +523,13 @@ impl Tables {
                     })
                     .collect::<Vec<_>>()
             ),
-            "consensus_versions" => format!("{:?}", self.consensus_versions),
+            "consensus_versions" => format!(
+                "{:?}",
+                self.consensus_versions
+                    .iter()
+                    .map(|(k, v)| (*k, if *v >= 0 { format!("P{}", v + 1) } else { "<value not in pool>".to_string() }))
+                    .collect::<Vec<_>>()
+            ),
             "state_transition_versions" => format!(
                 "{:?}",
                 self.state_transition_versions.iter().map(|(k, v)| (*k, h(v))).collect::<Vec<_>>()
@@ -747,15 +756,15 @@ struct St {
     vm: Vm,
     refm: Tables,
     obs: Tables,
-    /// Debug rendering of the whole real storage (hash kept in the key, text kept
-    /// for the failed-transaction comparison)
-    dump: String,
-    vm_fp: u64,
+    /// (length, hash) of the Debug rendering of the whole real storage: part of the
+    /// key and compared before/after a failed transaction
+    dump: (usize, u64),
 }
 
-fn dump_of(vm: &Vm) -> String {
+fn dump_of(vm: &Vm) -> (usize, u64) {
     let s: &MemoryStorage = vm.as_ref();
-    format!("{s:?}")
+    let d = format!("{s:?}");
+    (d.len(), hash64(&d))
 }
 
 type TxResult = Result<(), InterpreterError<Infallible>>;
@@ -763,20 +772,18 @@ type TxResult = Result<(), InterpreterError<Infallible>>;
 impl Model for M {
     type State = St;
     type Action = Act;
-    type Key = (Tables, u64, u64);
+    type Key = (Tables, (usize, u64));
 
     fn init(&self) -> St {
         let mut vm = self.fresh_vm();
         let mut extra = vec![];
         let obs = observe(&self.pool, vm.as_mut(), &mut extra);
         let dump = dump_of(&vm);
-        let vm_fp = hash64(&format!("{vm:?}"));
         St {
             vm,
             refm: Tables::default(),
             obs,
             dump,
-            vm_fp,
         }
     }
 
@@ -912,22 +919,28 @@ impl Model for M {
 
         // ---- samples (one per class, first occurrence)
         if let Some(r) = &verdict {
+            let long = path.len() >= 3;
             let class = match (a, r) {
-                (Act::UpgradeCp(_), Err(_)) => Some(0),
-                (Act::UpgradeSt(_), Ok(())) => Some(1),
-                (Act::Upload(..), Err(_)) if path.iter().any(|x| matches!(x, Act::Upload(..))) => Some(2),
-                (Act::UpgradeSt(_), Err(_))
-                    if !refm.state_transition_versions.is_empty()
-                        && matches!(refm.uploads.get(&pool.sts[match a {
-                            Act::UpgradeSt(i) => *i as usize,
-                            _ => 0,
-                        }]
-                        .root), Some(Progress::Completed(_))) =>
+                // stale consensus-parameter upgrade after the node already adopted a version
+                (Act::UpgradeCp(_), Err(_)) if path.contains(&Act::AdoptCp) => Some(0),
+                // state-transition upgrade installed under version 2
+                (Act::UpgradeSt(_), Ok(())) if refm.state_transition_versions.len() >= 2 => Some(1),
+                // out-of-order subsection while two roots are in progress
+                (Act::Upload(..), Err(InterpreterError::Panic(PanicReason::ThePartIsNotSequentiallyConnected)))
+                    if long && refm.uploads.values().filter(|p| matches!(p, Progress::Partial(..))).count() >= 2 =>
+                {
+                    Some(2)
+                }
+                // completely uploaded root refused because the version is taken by another root
+                (Act::UpgradeSt(i), Err(_))
+                    if matches!(refm.uploads.get(&pool.sts[*i as usize].root), Some(Progress::Completed(_)))
+                        && !refm.state_transition_versions.values().any(|r| *r == pool.sts[*i as usize].root) =>
                 {
                     Some(3)
                 }
-                (Act::Create(_), Err(_)) => Some(4),
-                (Act::Blob(_), Err(_)) => Some(5),
+                // same contract id / blob id from a different transaction
+                (Act::Create(1), Err(_)) if long && path.contains(&Act::Create(0)) => Some(4),
+                (Act::Blob(1), Err(_)) if long && path.contains(&Act::Blob(0)) => Some(5),
                 _ => None,
             };
             if let Some(c) = class {
@@ -950,18 +963,16 @@ impl Model for M {
             }
         }
 
-        let vm_fp = hash64(&format!("{vm:?}"));
         Some(St {
             vm,
             refm,
             obs,
             dump,
-            vm_fp,
         })
     }
 
     fn key(&self, s: &St) -> Self::Key {
-        (s.obs.clone(), hash64(&s.dump), s.vm_fp)
+        (s.obs.clone(), s.dump)
     }
 
     fn check(&self, s: &St, path: &[Act], ctx: &Ctx) {
@@ -988,7 +999,7 @@ fn explore(ctx: &Ctx) {
     let m = M::new();
     ctx.rule(
         "explicit-state BFS: all sequences of pool actions up to the depth bound, states merged on \
-         (all tables, current versions, hash of the interpreter's Debug rendering); every transition calls the real \
+         (all tables, current versions, hash of the storage's Debug rendering); every transition calls the real \
          Transactor::{deploy,blob,upload,upgrade} on a clone of the state's interpreter+MemoryStorage and is compared \
          with the reference tables. evals = transitions executed; a state is non-trivial when at least one table is \
          non-empty; distinct = distinct reference table states reached",
@@ -1028,7 +1039,10 @@ fn explore(ctx: &Ctx) {
         }),
     );
 
-    let depth = ctx.pick(5usize, 7usize);
+    let depth = std::env::var("VERIF_C35_DEPTH")
+        .ok()
+        .and_then(|d| d.parse().ok())
+        .unwrap_or(ctx.pick(7usize, 12usize));
     let stats = bfs::bfs(&m, depth, ctx.pick(2_000_000, 20_000_000), ctx);
     ctx.set(
         "bfs",
